@@ -21,6 +21,7 @@ import itertools
 import json
 import re
 import token as token_mod
+import warnings
 import tokenize as tokenize_mod
 from pathlib import Path
 
@@ -1070,6 +1071,7 @@ HAND_PICKED = [
 
 def run(ctx):
     global NORMALIZE, CLEAN
+    warnings.filterwarnings("ignore", category=SyntaxWarning)
     core.prove(ctx)
     core.import_repo()
     import importlib
